@@ -1,5 +1,6 @@
 pub mod common;
 pub mod sweep;
+pub mod stream;
 pub mod c01;
 pub mod c02;
 pub mod c03;
